@@ -432,8 +432,33 @@ func c15Queue(rep *Report, m *model.Client, r *rand.Rand) {
 	if pending2 != pending {
 		rep.violate(Violation{Kind: "oracle", Sig: "misuse-changes-state/queue/ack", Detail: fmt.Sprintf("a rejected ACK changed Pending from %d to %d", pending, pending2), Replay: c15Replay{Object: "queue", State: "ack"}})
 	}
-	// closed queue
+	// closed queue (with at least one pending event, so that an ACK that is not refused would remove it)
+	if pending2 == 0 {
+		w.Write(make([]byte, 20))
+		w.Next()
+		w.Flush()
+	}
+	// ... closed while the reader is inside a read transaction: reads are refused at once
+	rd.Begin()
+	pendingC, _ := q.Pending()
 	q.Close()
+	check("api_reader closed next", guarded(func() error { _, err := rd.Next(); return err }), "reader/closed-in-tx/next")
+	check("api_reader closed read", guarded(func() error { _, err := rd.Read(make([]byte, 8)); return err }), "reader/closed-in-tx/read")
+	check("api_reader closed available", guarded(func() error { _, err := rd.Available(); return err }), "reader/closed-in-tx/available")
+	rd.Done()
+	// ... and the objects the closed queue hands out are closed as well
+	check("api_ack 1 0 0 0", guarded(func() error { return q.ACK(1) }), "ack/closed-queue")
+	check("api_reader closed begin", guarded(func() error { return q.Reader().Begin() }), "reader/closed/begin-on-fresh-reader")
+	check("api_reader closed next", guarded(func() error { _, err := q.Reader().Next(); return err }), "reader/closed/next-on-fresh-reader")
+	if w2, err := q.Writer(); err == nil {
+		check("api_writer closed write", guarded(func() error { _, err := w2.Write([]byte{1}); return err }), "writer/closed/write-on-fresh-writer")
+		check("api_writer closed flush", guarded(func() error { return w2.Flush() }), "writer/closed/flush-on-fresh-writer")
+	} else {
+		rep.count("queue:writer-of-a-closed-queue=error", 1)
+	}
+	if pendingD, _ := q.Pending(); pendingD != pendingC {
+		rep.violate(Violation{Kind: "oracle", Sig: "misuse-changes-state/queue/closed", Detail: fmt.Sprintf("calls on a closed queue changed Pending from %d to %d", pendingC, pendingD), Replay: c15Replay{Object: "queue", State: "closed"}})
+	}
 	check("api_writer closed write", guarded(func() error { _, err := w.Write([]byte{1}); return err }), "writer/closed/write")
 	check("api_writer closed next", guarded(func() error { return w.Next() }), "writer/closed/next")
 	check("api_writer closed flush", guarded(func() error { return w.Flush() }), "writer/closed/flush")
